@@ -12,7 +12,7 @@ TEXT = {
     "C06": "partial proof: whole-pipeline statement proved on four slices for inputs of any length (escaped text, verbatim fenced code, emphasis nests = the spec's delimiter procedure, a shortcut reference against one definition); for general documents: denotation oracle on serialised abstract documents (lib/docgen.py) plus model/implementation HTML correspondence",
     "C07": "full proof on the model: C07_final (for every input, every reference matcher, every configuration without tag filter, rendered HTML is in the safe grammar); C07_render_safeW holds for every tree whose leaves satisfy bokW and the run evaluates bokW on the implementation's own trees; tie: model renderer on the implementation's tree = implementation's bytes",
     "C08": "full proof on the stream-layer model: readline under any read schedule (readline_sim), whole NextBlock (next_block_sim), whole runs and the fault clause (C08_stream_eq, C08_fault), any block machine satisfying three stated laws; tie: streaming implementation under generated schedules/faults vs the in-memory model on the delivered prefix",
-    "C09": "partial proof: the nesting property proved end to end on a slice (text lines of any length behind '> ', also several lines forming one paragraph; one line behind a bullet or ordered marker: SliceNest, SliceMulti); for general documents: nesting oracle on the implementation (D vs contents of quote(D) / item(D), safe-mode HTML) plus model/implementation correspondence on each variant",
+    "C09": "partial proof: block-quote clause at the block layer for every tab-free document without '[' (parseBlocks_quote_main_partial: one quote whose children are the blocks of D under the position map); end to end with rendering on slices (text lines behind '> ', a bullet or an ordered marker); list-item clause and documents with '[': nesting oracle on the implementation (D vs contents of quote(D) / item(D), safe-mode HTML) plus model/implementation correspondence on each variant",
     "C10": "full proof on the model: Walk with the renderer's callbacks writes exactly the structural reading renderB of the tree, for every block and configuration (C10_appendBlock, walk_is_spec); tie: the structural renderer run on the implementation's own tree dump reproduces the implementation's bytes in all 30 configurations; determinism / tree untouched / joining observed on the implementation",
     "C11": "proof that the openers_bottom search bounds never change the result of process-emphasis (abstract lists of any length, and on the transcription of processEmphasis); full statement proved end to end on a vertical slice (C11_slice: lines of any length over letters, spaces, '*', '_' and a few ASCII punctuation bytes parse to exactly the forest the spec's delimiter-run procedure denotes); flanking flags and tokenisation tied by exhaustive correspondence up to a length bound; oracle = independent transcription of the spec procedure without the bound",
     "C12": "partial proof: closure clause for every input and matcher (C12_closure), Extract = first-wins fold in source order; label normalisation tied through the generated case-folding table and judged against an independent normaliser on generated label pairs",
